@@ -257,6 +257,16 @@ def base58(ctx, prog, ev):
     t = unparse(ha.node)
     ok = "raw_address = cls.pubkey_address_prefix + h160" in t and "return Base58.encode(bytearray(raw_address + double_sha256(raw_address)[0:4]))" in t
     ctx.ob("C06-D3/SYM", ok, ha.site(), "address = Base58(prefix ‖ hash160 ‖ double-SHA256(prefix ‖ hash160)[:4]) — the construction decode_check verifies", func=ha.fi.qualname)
+    # the two address kinds differ in the prefix only — and do differ in it
+    for fn, pre_attr in (("hash160_to_address", "pubkey_address_prefix"), ("hash160_to_script_address", "script_address_prefix")):
+        f = ctx.fa(f"lbry.wallet.ledger.Ledger.{fn}")
+        r = R.single_return_value(f)
+        hp = f.fi.params()[1]
+        want = f"Base58.encode(bytearray(cls.{pre_attr} + {hp} + double_sha256(cls.{pre_attr} + {hp})[0:4]))"
+        ok = r is not None and f.expanded_text(r.value, keep=(hp, "cls")) == want
+        ctx.ob("C06-D3/SYM", ok, f.site(), f"{fn} prefixes `cls.{pre_attr}` (a pay-to-script-hash address must not look like a pay-to-pubkey-hash address: the legacy channel "
+               "signature digest and the address kind tests read the prefix)", func=f.fi.qualname, key=f"C06-D3/SYM|{fn}|prefix",
+               detail="" if ok else (f.expanded_text(r.value, keep=(hp, "cls"))[:140] if r is not None else "no single return"))
     ah = ctx.fa("lbry.wallet.ledger.Ledger.address_to_hash160")
     r = R.single_return_value(ah)
     lcls = prog.cls("lbry.wallet.ledger.Ledger")
